@@ -68,6 +68,14 @@ impl VxEvents {
         ensures final(self).events@ == old(self).events@.push(event),
     { self.events.push(event); }
 }
+impl Default for TransactionEventHandler {
+//@item stun_agent :: mod events > impl ::core::default::Default for TransactionEventHandler > fn default
+//@tags C05 C19
+//@sub "::core::default::Default::default()" => "Vec::new()"
+//@spec
+    ensures r.events@.len() == 0,
+//@end
+}
 impl TransactionEventHandler {
 //@item stun_agent :: mod events > impl TransactionEventHandler > fn events
 //@tags C05
@@ -985,6 +993,140 @@ impl From<TransportReliability> for StunRttCalcuator {
             && r->Unreliable_0.last_request is None && r->Unreliable_0.rtt.srtt.ns@ == 0 && r->Unreliable_0.rtt.rto == c.rto
             && (c.rc <= 31 ==> r.wf()),
     },
+//@end
+}
+// ---------------------------------------------------------------- the builder and StunClient::new (client.rs): what is configured is what the client runs with
+// collaborators of StunClient::new that are abstract in this unit (their contracts are proved in units attrs and cred)
+#[verifier::external_body]
+pub struct UserName { _p: () }
+#[verifier::external_body]
+pub struct HMACKey { _p: () }
+#[verifier::external_body]
+pub struct StunError { _p: () }
+#[verifier::external_body]
+pub struct ShortTermCredentialClient { _p: () }
+#[verifier::external_body]
+pub struct LongTermCredentialClient { _p: () }
+//@item! stun_agent :: enum Integrity
+//@item! stun_agent :: enum CredentialMechanism
+impl UserName {
+    #[verifier::external_body]
+    pub fn new(name: String) -> Result<UserName, StunError> { unimplemented!() }
+}
+impl HMACKey {
+    #[verifier::external_body]
+    pub fn new_short_term(password: String) -> Result<HMACKey, StunError> { unimplemented!() }
+}
+impl ShortTermCredentialClient {
+    #[verifier::external_body]
+    pub fn new(user_name: UserName, key: HMACKey, integrity: Option<Integrity>, is_reliable: bool) -> ShortTermCredentialClient { unimplemented!() }
+}
+impl LongTermCredentialClient {
+    #[verifier::external_body]
+    pub fn new(user_name: UserName, password: String, is_reliable: bool) -> LongTermCredentialClient { unimplemented!() }
+}
+// the two variants of the real enum CredentialMechanismClient (abstract here): a new mechanism satisfies its invariant and has
+// no protection-violated marker (unit cred: ShortTermCredentialClient::new / LongTermCredentialClient::new start with an empty set)
+#[verifier::external_body]
+pub fn vx_mech_short(m: ShortTermCredentialClient) -> (r: CredentialMechanismClient)
+    ensures r.wf(), r.violated() == Set::<TransactionId>::empty(),
+{ unimplemented!() }
+#[verifier::external_body]
+pub fn vx_mech_long(m: LongTermCredentialClient) -> (r: CredentialMechanismClient)
+    ensures r.wf(), r.violated() == Set::<TransactionId>::empty(),
+{ unimplemented!() }
+//@item! stun_agent :: mod client > struct StunClientParameters
+//@item! stun_agent :: mod client > struct StunClienteBuilder
+pub open spec fn reliability_ok(t: TransportReliability) -> bool {
+    match t { TransportReliability::Reliable(_) => true, TransportReliability::Unreliable(c) => c.rc <= 31 }
+}
+impl StunClienteBuilder {
+//@item stun_agent :: mod client > impl StunClienteBuilder > fn new
+//@tags C12 C10 C06 C19
+//@spec
+    // RFC-independent defaults: no credentials, no FINGERPRINT, ten outstanding requests
+    ensures r.0.reliability == reliability, r.0.mechanism is None, r.0.user_name is None, r.0.password is None,
+        !r.0.fingerprint, r.0.max_transactions == 10,
+//@end
+//@item stun_agent :: mod client > impl StunClienteBuilder > fn with_max_transactions
+//@tags C12 C19
+//@rules R5?
+//@spec
+    // exactly the limit asked for (0 included: such a client refuses every request), nothing else touched
+    ensures r.0.max_transactions == max_transactions, r.0.reliability == self.0.reliability, r.0.mechanism == self.0.mechanism,
+        r.0.user_name == self.0.user_name, r.0.password == self.0.password, r.0.fingerprint == self.0.fingerprint,
+//@end
+//@item stun_agent :: mod client > impl StunClienteBuilder > fn with_mechanism
+//@tags C07 C08 C19
+//@rules R5?
+//@sig
+    pub fn with_mechanism(self, user_name: String, password: String, mechanism: CredentialMechanism) -> (r: Self)
+//@sub "user_name.into()" => "user_name"
+//@sub "password.into()" => "password"
+//@spec
+    ensures r.0.mechanism == Some(mechanism), r.0.user_name == Some(user_name), r.0.password == Some(password),
+        r.0.max_transactions == self.0.max_transactions, r.0.reliability == self.0.reliability, r.0.fingerprint == self.0.fingerprint,
+//@end
+//@item stun_agent :: mod client > impl StunClienteBuilder > fn with_fingerprint
+//@tags C10 C19
+//@rules R5?
+//@spec
+    ensures r.0.fingerprint, r.0.max_transactions == self.0.max_transactions, r.0.reliability == self.0.reliability,
+        r.0.mechanism == self.0.mechanism, r.0.user_name == self.0.user_name, r.0.password == self.0.password,
+//@end
+//@item stun_agent :: mod client > impl StunClienteBuilder > fn build
+//@tags C12 C10 C06 C07 C08 C19
+//@spec
+    ensures r is Ok ==> client_as_configured(r->Ok_0, self.0),
+//@end
+}
+// a new client: nothing outstanding, no timer, no pending event; limit, FINGERPRINT option, transport and the presence of a
+// credential mechanism are the configured ones; it satisfies the representation invariant every method needs
+pub open spec fn client_as_configured(c: StunClient, p: StunClientParameters) -> bool {
+    &&& c.max_transactions == p.max_transactions
+    &&& c.use_fingerprint == p.fingerprint
+    &&& (c.mechanism is Some <==> p.mechanism is Some)
+    &&& (c.mechanism is Some ==> c.mechanism->Some_0.violated() == Set::<TransactionId>::empty())
+    &&& c.transactions@ == Map::<TransactionId, StunTransaction>::empty()
+    &&& c.timeouts.ms().len() == 0
+    &&& c.transaction_events.events@.len() == 0
+    &&& (match p.reliability {
+            TransportReliability::Reliable(t) => c.rtt == StunRttCalcuator::Reliable(t),
+            TransportReliability::Unreliable(cfg) => c.rtt is Unreliable && c.rtt->Unreliable_0.rm == cfg.rm && c.rtt->Unreliable_0.rc == cfg.rc
+                && c.rtt->Unreliable_0.last_request is None && c.rtt->Unreliable_0.rtt.srtt.ns@ == 0 && c.rtt->Unreliable_0.rtt.rto == cfg.rto,
+        })
+    &&& (reliability_ok(p.reliability) ==> c.wf())
+}
+impl StunClient {
+//@item stun_agent :: mod client > impl StunClient > fn new
+//@tags C12 C10 C06 C07 C08 C05 C19
+//@closure 1
+|| -> (e: StunAgentError)
+    ensures e is InternalError,
+//@closure 2
+|| -> (e: StunAgentError)
+    ensures e is InternalError,
+//@closure 3
+|e: StunError| -> (x: StunAgentError)
+    ensures x is InternalError,
+//@closure 4
+|e: StunError| -> (x: StunAgentError)
+    ensures x is InternalError,
+//@sub "String::from(\"User name is required\")" => "vx_fmt()"
+//@sub "String::from(\"Password is required\")" => "vx_fmt()"
+//@sub "CredentialMechanismClient::ShortTerm(" => "vx_mech_short("
+//@sub "CredentialMechanismClient::LongTerm(" => "vx_mech_long("
+//@sub "encoder: Default::default()" => "encoder: MessageEncoder::default()"
+//@sub "decoder: Default::default()" => "decoder: MessageDecoder::default()"
+//@sub "transactions: Default::default()" => "transactions: HashMap::new()"
+//@sub "transaction_events: Default::default()" => "transaction_events: TransactionEventHandler::default()"
+//@stmt "Ok(Self {"
+    let vx_timeouts = StunMessageTimeout::default();
+//@sub "timeouts: StunMessageTimeout::default()" => "timeouts: vx_timeouts"
+//@spec
+    ensures r is Ok ==> client_as_configured(r->Ok_0, params),
+        // the only refusals: a mechanism without user name / password, or credentials the OpaqueString profile rejects
+        params.mechanism is None ==> r is Ok,
 //@end
 }
 // base case of the client's representation invariant: no outstanding request, no timer
